@@ -511,5 +511,23 @@ def replay(ctx: fw.Ctx, body: dict) -> bool:
         for f in fs:
             print('  ', f['sig'], f['what'], f.get('label'))
         return bool(fs)
+    if case.get('layer') == 'lines':
+        import asyncio
+        from kopf._cogs.clients import api as kapi
+        chunks = [bytes(c) for c in case['chunks']]
+
+        class Content:
+            def iter_chunked(self, n: int) -> Any:
+                async def gen() -> Any:
+                    for c in chunks:
+                        yield c
+                return gen()
+
+        async def collect() -> list[bytes]:
+            return [line async for line in kapi.iter_jsonlines(Content())]      # type: ignore[arg-type]
+        got = asyncio.new_event_loop().run_until_complete(collect())
+        want = [l for l in b''.join(chunks).split(b'\n') if l]
+        print('  ', 'got', got, 'want', want)
+        return got != want
     from kv.props import c19_ens
     return c19_ens.replay(ctx, case)
